@@ -48,7 +48,7 @@ var fnWhitelist = map[string][]string{
 		"Info.Validate", "Export.Validate", "isContainedIn", "Exports.Validate", "Exports.HasExportContainingSubject", "Mapping.Validate",
 		"CreateValidationResults", "ResponsePermission.Validate", "Permissions.Validate",
 		"OperatorLimits.IsEmpty", "OperatorLimits.Validate", "ExternalAuthorization.Validate",
-		"UserScope.Validate", "SigningKeys.Validate", "Account.Validate", "AccountClaims.Validate", "GenericClaims.Validate", "AuthorizationRequestClaims.Validate", "AuthorizationResponseClaims.Validate", "TimeRange.Validate", "Limits.Validate", "User.Validate", "UserClaims.Validate", "ParseServerVersion", "Operator.validateAccountServerURL", "ValidateOperatorServiceURL", "Operator.validateOperatorServiceURLs", "Operator.Validate", "OperatorClaims.Validate",
+		"UserScope.Validate", "SigningKeys.Validate", "Account.Validate", "AccountClaims.Validate", "GenericClaims.Validate", "AuthorizationRequestClaims.Validate", "AuthorizationResponseClaims.Validate", "TimeRange.Validate", "Limits.Validate", "User.Validate", "UserClaims.Validate", "ParseServerVersion", "Operator.validateAccountServerURL", "ValidateOperatorServiceURL", "Operator.validateOperatorServiceURLs", "Operator.Validate", "OperatorClaims.Validate", "OperatorClaims.ExpectedPrefixes", "AccountClaims.ExpectedPrefixes", "UserClaims.ExpectedPrefixes", "ActivationClaims.ExpectedPrefixes", "AuthorizationRequestClaims.ExpectedPrefixes", "AuthorizationResponseClaims.ExpectedPrefixes", "GenericClaims.ExpectedPrefixes", "Decode",
 	},
 	"V1": {
 		"Subject.HasWildCards", "Subject.IsContainedIn", "cleanSubject",
@@ -209,12 +209,22 @@ func (g *fnGen) leanTypeQuiet(t types.Type) (r string) {
 	return g.leanType(t)
 }
 
+// nilSliceMethods: methods whose slice result callers compare with nil (`Option (List T)`; `nil` is `none`)
+var nilSliceMethods = map[string]bool{"ExpectedPrefixes": true}
+
+func nilSliceKey(key string) bool {
+	if i := strings.LastIndex(key, "."); i >= 0 {
+		return nilSliceMethods[key[i+1:]]
+	}
+	return false
+}
+
 // nilableElems: slice element types that decoded JSON can make nil (`[]*Export`, `[]*Import`)
 var nilableElems = map[string]bool{"Export": true, "Import": true}
 
 // opaqueFns: package functions that translated code may call but that stay outside the translation (their behaviour
 // is a parameter of the translated caller: a field of the generated structure `Opq`)
-var opaqueFns = map[string]bool{"DecodeActivationClaims": true, "RenamingSubject.ToSubject": true}
+var opaqueFns = map[string]bool{"parseHeaders": true, "decodeString": true, "loadClaims": true, "DecodeActivationClaims": true, "RenamingSubject.ToSubject": true}
 
 // foreignOpaque: functions of other packages that translated code may call; each becomes a field of `Opq`
 // (name, Lean type of the field, and how a two-value result is read)
@@ -225,6 +235,7 @@ var foreignOpaque = map[string]string{
 	"nkeys.IsValidPublicOperatorKey": "Str → Bool",
 	"nkeys.IsValidPublicServerKey":   "Str → Bool",
 	"nkeys.IsValidPublicCurveKey":    "Str → Bool",
+	"Claims.verify":                  "I_Claims → Str → (List Int) → Bool", // the interface method `verify(payload, sig)`: the signature check under the claim's own issuer
 	"url.Parse":                      "Str → Option T_url_URL", // none = the error result is non-nil (and the *URL is nil)
 	"time.Parse":                     "Str → Str → Bool", // true = the error result is non-nil
 	"time.LoadLocation":              "Str → Bool",       // true = the error result is non-nil
@@ -1005,6 +1016,16 @@ func (c *fnCtx) binary(x *ast.BinaryExpr) ex {
 				}
 				return ex{"(" + a.s + ").isSome", false}
 			}
+			if _, isSlice := t.Underlying().(*types.Slice); isSlice {
+				if id, ok := other.(*ast.Ident); ok {
+					if o := c.g.p.TypesInfo.Uses[id]; o != nil && c.nilVars[o] {
+						if x.Op == token.EQL {
+							return ex{"(" + c.nameOf(o) + ").isNone", false}
+						}
+						return ex{"(" + c.nameOf(o) + ").isSome", false}
+					}
+				}
+			}
 			if isErrorType(t) {
 				a := c.expr(other)
 				if a.m {
@@ -1271,6 +1292,20 @@ func (c *fnCtx) call(x *ast.CallExpr) ex {
 	}
 	if se, ok := x.Fun.(*ast.SelectorExpr); ok {
 		if in, ok := c.g.ifaceOf(c.typeOf(se.X)); ok {
+			if q := in + "." + se.Sel.Name; foreignOpaque[q] != "" {
+				if c.g.foreign == nil {
+					c.g.foreign = map[string]bool{}
+				}
+				if !c.g.foreign[q] {
+					c.g.foreign[q] = true
+					c.g.foreignOrd = append(c.g.foreignOrd, q)
+				}
+				as := []ex{c.expr(se.X)}
+				for _, a := range x.Args {
+					as = append(as, c.expr(a))
+				}
+				return c.pureApp("opq."+strings.ReplaceAll(q, ".", "_"), as...)
+			}
 			return c.ifaceCall(in, se, x)
 		}
 	}
@@ -1658,6 +1693,27 @@ func (c *fnCtx) stmt(b *block, s ast.Stmt) {
 				vals = append(vals, "false")
 				continue
 			}
+			if _, isI := c.g.ifaceOf(c.fi.results[i]); isI {
+				if c.isNilExpr(r) {
+					vals = append(vals, "none")
+					continue
+				}
+				if id, ok := r.(*ast.Ident); ok {
+					if o := c.g.p.TypesInfo.Uses[id]; o != nil && (c.nilVars[o] || c.fi.optPtr[o]) {
+						vals = append(vals, c.nameOf(o)) // the interface value itself (possibly nil)
+						continue
+					}
+				}
+				unsup("interface result outside the subset")
+			}
+			if _, isSlice := c.fi.results[i].Underlying().(*types.Slice); isSlice && nilSliceKey(c.fi.key) {
+				if c.isNilExpr(r) {
+					vals = append(vals, "none")
+				} else {
+					vals = append(vals, "(some "+c.expr(r).bind()+")")
+				}
+				continue
+			}
 			vals = append(vals, c.expr(r).bind())
 		}
 		if len(x.Results) == 0 && len(c.fi.results) > 0 {
@@ -1910,15 +1966,32 @@ func (c *fnCtx) assign(b *block, x *ast.AssignStmt) {
 		}
 	}
 	// p, err = OpaqueFn(args): the two results of an opaque package function
-	if len(x.Lhs) == 2 && len(x.Rhs) == 1 {
+	if len(x.Lhs) >= 2 && len(x.Rhs) == 1 {
 		if call, ok := x.Rhs[0].(*ast.CallExpr); ok {
-			if fi := c.g.callee(call); fi != nil && fi.fd == nil && len(fi.results) == 2 {
+			if fi := c.g.callee(call); fi != nil && fi.fd == nil && len(fi.results) == len(x.Lhs) {
 				app := c.callFn(call, fi)
 				c.tmpN++
 				tmp := fmt.Sprintf("__o%d", c.tmpN)
 				b.add("let %s ← %s", tmp, app.s)
-				c.store(b, x.Lhs[0], tmp+".1")
-				c.store(b, x.Lhs[1], tmp+".2")
+				for i, l := range x.Lhs {
+					pr := tmp
+					for j := 0; j < i; j++ {
+						pr += ".2"
+					}
+					if i < len(x.Lhs)-1 {
+						pr += ".1"
+					}
+					if id, ok := l.(*ast.Ident); ok && id.Name != "_" && x.Tok == token.DEFINE {
+						if o := c.g.p.TypesInfo.Defs[id]; o != nil {
+							_, isP := ptrToStruct(o.Type())
+							_, isI := c.g.ifaceOf(o.Type())
+							if isP || isI {
+								c.nilVars[o] = true
+							}
+						}
+					}
+					c.store(b, l, pr)
+				}
 				return
 			}
 		}
@@ -2036,6 +2109,16 @@ func (c *fnCtx) assign(b *block, x *ast.AssignStmt) {
 	}
 	if len(x.Lhs) > 1 {
 		unsup("parallel assignment")
+	}
+	// v := x.M() where M's slice result may be nil: v is a nilable slice
+	if call, ok := x.Rhs[0].(*ast.CallExpr); ok && x.Tok == token.DEFINE {
+		if se, ok := call.Fun.(*ast.SelectorExpr); ok && nilSliceMethods[se.Sel.Name] {
+			if id, ok := x.Lhs[0].(*ast.Ident); ok && id.Name != "_" {
+				if o := c.g.p.TypesInfo.Defs[id]; o != nil {
+					c.nilVars[o] = true
+				}
+			}
+		}
 	}
 	// a local function literal with a single return: `f := func(a T) R { return e }`
 	if fl, ok := x.Rhs[0].(*ast.FuncLit); ok && x.Tok == token.DEFINE {
@@ -2725,6 +2808,10 @@ func (g *fnGen) emit(fi *fnInfo, emitted map[string]bool) (text string, err stri
 		}
 	}
 	for _, r := range fi.results {
+		if _, isSlice := r.Underlying().(*types.Slice); isSlice && nilSliceKey(fi.key) {
+			rts = append(rts, "(Option "+g.leanType(r)+")")
+			continue
+		}
 		rts = append(rts, g.leanType(r))
 	}
 	switch len(rts) {
